@@ -227,7 +227,7 @@ def proto_rule(ctx):
     for f in tc.fns:
         if not f.body or not ("proc_gen" in f.module or "binding_map" in f.module):
             continue
-        toks = es.linearize(f.body)
+        toks = es.linearize(f.body, top=True)
         subst = lit_params.get(f.qual, {})
         for st, in_map in c06_statements(toks):
             n_stmts += 1
@@ -858,18 +858,18 @@ def event_flags_rule(ctx):
     want = [fmap[x] for x in want_ts]
     fs = [f for f in tc.fns if f.base == "EventBinding" and f.name == "to_proc_gen" and f.body]
     k = 0
+    from rules.c06 import statements as c06_statements, top_tokens
     for f in fs:
-        for n in sir.walk(f.body):
-            wf = sir.write_fmt_call(n)
-            if not wf:
+        toks = es.linearize(f.body, top=True)
+        for st, _in_map in c06_statements(toks):
+            tt = top_tokens(st)
+            if not any(t[0] == "lit" and "R.v(" in t[1] for t in tt):
                 continue
             seq = []
-            for pc in wf[1]:
-                if pc[0] != "lit" and isinstance(pc[1], dict) and pc[1].get("k") == "if":
-                    c = sir.expr_str(pc[1]["cond"]).replace(" ", "")
-                    t = [x.get("v") for x in sir.walk(pc[1]["then"]) if x.get("k") == "lit"]
-                    if c.startswith("self.is_") and "!0" in t:
-                        seq.append(c[len("self."):])
+            for t in tt:
+                if t[0] == "hole":
+                    for m_ in re.finditer(r"\bis_(catch|mut|capture)\b", t[1]):
+                        seq.append("is_" + m_.group(1))
             if len(seq) >= 2:
                 k += 1
                 obs.append(ob("C04.proto/event-flags/site#%d" % k, seq == want, ctx.where(f), "flags are passed as %s (runtime order: %s)" % (seq, want),
